@@ -168,7 +168,9 @@ CHECKS = {
         text="Region.tla: the division loop vs 'min(n,len) pieces differing by at most one whose concatenation is the original' checked by TLC "
              "for every (length, divisor); concat / sum / repeat / join / silence / equality / parameter errors / frozen fields / ragged data "
              "as actions of RegionTrace over a POOL of regions whose results feed later operations; after every call all pool members are "
-             "re-projected (operands unchanged). Silence durations include dyadic values whose product with the rate is exactly k + 1/2 (round half to even).",
+             "re-projected (operands unchanged). Silence durations include dyadic values whose product with the rate is exactly k + 1/2 (round half to even). "
+             "The division lengths (sum = original, no empty piece, the longer pieces among the min(n,len) pieces) are proved for ALL lengths and divisors "
+             "by Apalache on RegionInt.",
         ref="DESIGN.md 5/C17", technique="TLA+ case enumeration (TLC) + trace validation of operation sequences over a region pool", note=REGION_NOTE),
     "C18": dict(
         text="Files.tla is a file-system state machine (names -> format, header parameters, sample ids): TLC explores every history of saves "
